@@ -106,19 +106,16 @@ DecodeExact ==
   /\ r.ok = good
   /\ good => r.used = t /\ Limb(r.hi) /\ Limb(r.lo) /\ r.hi * 65536 + r.lo = MathVal(t, b1, b2, b3, b4, b5)
   /\ ~good => r = B128Fail
-\* B5: the accepted strings are almost canonical - two accepted strings with the same value are the same string,
-\*     except that leading zero septets are only refused in the FIRST byte (0x80): the one way to write a value twice
-\*     is ... none: a later 0x80 byte is a zero digit in the middle and changes the value.  Proved: equal values and
-\*     both accepted => same length and same bytes.
+\* B5: the accepted strings are canonical: two accepted strings (of n resp. m existing bytes) with the same value have
+\*     the same length and the same bytes up to it - the leading-0x80 rule is all it takes, a later 0x80 is a zero
+\*     digit in the middle
 Injective ==
   LET r == DecB128(n, b1, b2, b3, b4, b5)  q == DecB128(m, c1, c2, c3, c4, c5) IN
-  (r.ok /\ q.ok /\ r.hi = q.hi /\ r.lo = q.lo /\ b1 # 128 + 0 /\ (b1 % 128 # 0 \/ r.used = 1) /\ (c1 % 128 # 0 \/ q.used = 1)) =>
+  (r.ok /\ q.ok /\ r.hi = q.hi /\ r.lo = q.lo) =>
      /\ r.used = q.used
      /\ b1 = c1
      /\ (r.used >= 2 => b2 = c2) /\ (r.used >= 3 => b3 = c3) /\ (r.used >= 4 => b4 = c4) /\ (r.used >= 5 => b5 = c5)
-\* planted FALSE lemma: the decoder refuses EVERY leading zero septet (it refuses only 0x80 itself: 0x80 is the
-\* only first byte with continuation bit and zero digit, so this one is actually true ... the false claim is
-\* that it accepts only minimal encodings of length <= 4)
+\* planted FALSE lemma: an accepted string has at most 4 bytes
 PlantedFalse == DecB128(n, b1, b2, b3, b4, b5).ok => DecB128(n, b1, b2, b3, b4, b5).used <= 4
 \* B3 on septets: the string written from ANY five septets by EncB128's rule (strip leading zero septets, set the
 \* continuation bit on all but the last) decodes to the number the septets write, whatever follows it
@@ -185,7 +182,7 @@ RTC3 == RTC(3)
 RTC4 == RTC(4)
 RTC5 == RTC(5)
 RTCLen == EncCases(Q5(q1, q2, q3, q4, q5))[1] \in 1 .. 5
-\* lemma-as-hint: SeptetsExact and DecodeExact are proved on their own; with them as hypotheses the solver needs no
-\* reasoning about \div and % to see RoundTrip (modus ponens is left to the reader)
-RoundTripFromLemmas == SeptetsExact => RoundTrip
+\* NOT discharged as single queries (Apalache / Z3 time out after 300 - 900 s on each; see notes/X04.md): RoundTrip,
+\* RoundTripQ, RoundTripL, RoundTripC above.  What IS discharged: RT1 .. RT5 from InitQ (any septets) and RTCLen,
+\* RTC1 .. RTC5 from InitEnc (the encoder's septets); RoundTripC is the conjunction of RTC1 .. RTC5 given RTCLen.
 =============================================================================
